@@ -169,3 +169,94 @@ func drawStructured(t *rapid.T, p *big.Int, label string) *big.Int {
 	}
 	return v.Mod(v, p)
 }
+
+// ---------------------------------------------------------------------------
+// decoding into used receivers
+//
+// Every decoder with a receiver is run a second time into an object that already holds something
+// (another valid value, the identity, the unnormalised result of an arithmetic operation, the
+// remains of a rejected decode). The property speaks about the value a decoder yields, whatever the
+// receiver held before: the verdict must be the one obtained with a fresh receiver, and for an
+// accepted input every observation of the value (re-encodings in all formats, IsIdentity,
+// membership predicate, equality with the freshly decoded value in both directions) must be the
+// same. The fresh decode is judged against the reference by the main oracle, so agreement with it
+// carries the reference's verdict over to the used receiver.
+
+type recvObs struct {
+	accepted bool
+	pan      string   // panic during decode or observation ("" if none)
+	views    [][]byte // serialisations of the decoded value
+	flags    []bool   // predicates on the decoded value
+}
+
+// observe runs f under recover; f fills o.
+func observe(f func(o *recvObs)) recvObs {
+	var o recvObs
+	if pn, _ := vlib.Catch(func() { f(&o) }); pn != nil {
+		o.pan = vlib.PanicClass(pn)
+	}
+	return o
+}
+
+func (o recvObs) String() string {
+	return fmt.Sprintf("{accepted=%v panic=%q views=%x flags=%v}", o.accepted, o.pan, o.views, o.flags)
+}
+
+// judgeUsed compares the observation made with a used receiver with the one of a fresh receiver.
+// before/after are serialisations of the used receiver before the call and after a rejected call
+// (nil if not observable); a change is only recorded.
+func judgeUsed(t vlib.TB, entry, sub, state string, b []byte, fresh, used recvObs, before, after [][]byte) {
+	vlib.Class(sub, "used-receiver state="+state)
+	if fresh.pan != "" {
+		// the fresh decode itself panics: property C10's subject, nothing to compare
+		return
+	}
+	detail := func() string {
+		return fmt.Sprintf("receiver state=%s input=%x fresh=%v used=%v", state, b, fresh, used)
+	}
+	if used.pan != "" {
+		vlib.Report(t, "C09/receiver/"+entry+"/panics-with-used-receiver", detail())
+		return
+	}
+	if used.accepted != fresh.accepted {
+		vlib.Report(t, "C09/receiver/"+entry+"/verdict-differs", detail())
+		return
+	}
+	if !used.accepted {
+		if before != nil && after != nil {
+			same := len(before) == len(after)
+			for i := 0; same && i < len(before); i++ {
+				same = eq(before[i], after[i])
+			}
+			if same {
+				vlib.Class(sub, "used-receiver rejected input: receiver unchanged")
+			} else {
+				vlib.Class(sub, "used-receiver rejected input: receiver CHANGED (recorded only)")
+			}
+		}
+		return
+	}
+	vlib.Class(sub, "used-receiver accepted: compared with fresh decode")
+	ok := len(used.views) == len(fresh.views) && len(used.flags) == len(fresh.flags)
+	for i := 0; ok && i < len(used.views); i++ {
+		ok = eq(used.views[i], fresh.views[i])
+	}
+	for i := 0; ok && i < len(used.flags); i++ {
+		ok = used.flags[i] == fresh.flags[i]
+	}
+	if !ok {
+		vlib.Report(t, "C09/receiver/"+entry+"/value-differs", detail())
+	}
+}
+
+// recvState picks the state of the used receiver as a function of the input.
+func recvState(b []byte, n int) int { return int(vlib.Hash64([]byte("recv"), b) % uint64(n)) }
+
+// garbage is an input every decoder rejects (used to leave a receiver in its after-failure state).
+func garbage(n int) []byte {
+	g := make([]byte, n)
+	for i := range g {
+		g[i] = 0xff
+	}
+	return g
+}
